@@ -303,6 +303,8 @@ class ABIN(Command):
         """
         super(ABIN, self).__init__(shx, spline)
         p, _ = self._parse_line(spline)
+        self.n1 = None
+        self.n2 = None
         if len(p) > 0:
             self.n1 = p[0]
         if len(p) > 1:
@@ -879,6 +881,7 @@ class GRID(Command):
         """
         super(GRID, self).__init__(shx, spline)
         params, _ = self._parse_line(spline)
+        self.sl, self.sa, self.sd, self.dl, self.da, self.dd = None, None, None, None, None, None
         if len(params) > 0:
             self.sl = params[0]
         if len(params) > 1:
